@@ -926,7 +926,7 @@ static int t_recv(const void *s, void *buf, const size_t len, const time_t timeo
 		rcalls_n = 0;
 		struct vj *it = cur_items->items[cur_item_i - 1];
 
-		cur_ctick = vj_int(it, "ctick", 0);
+		cur_ctick = getenv("VH_CHUNK") ? 0 : vj_int(it, "ctick", 0); /* imposed chunkings (C04) compare outcomes: no time may hang on the chunking */
 
 		if (vj_get(it, "cut")) {
 			cut_at = vj_int(it, "cut", 0);
